@@ -105,9 +105,9 @@ def volume_budget(L, cap, mlen):
 
 
 def gen_volume_case(rng, L):
-    shape = rng.choice(["deep", "deep", "growth", "growth", "mixed", "compact"])
-    if shape == "compact" and L < 20:
-        shape = "mixed"
+    # a buffer at most `limit` long needs limit >= 20 (capacity >= 20): the compact regime exists at limit 64 only
+    shape = rng.choice(["deep", "growth", "growth", "mixed", "compact", "compact"] if L >= 20 else
+                       ["deep", "deep", "growth", "growth", "mixed"])
     if shape == "compact":
         cap = rng.choice([20, 21, rng.randint(20, L), L - 1, L])
     elif L >= 20 and shape == "growth" and rng.random() < 0.6:
